@@ -122,11 +122,27 @@ def inventory(files):
         elif kind.startswith("modname") or kind == "moddef":
             name = node.id if isinstance(node, ast.Name) else node.name
             mod.setdefault(f"{rel}:{name}", set()).add((qual, kind.split(":")[-1]))
+    all_methods = set()
+    for rel, (_src, tree) in files.items():
+        for st in ast.walk(tree):
+            if isinstance(st, ast.ClassDef):
+                for m in st.body:
+                    if isinstance(m, (ast.FunctionDef, ast.AsyncFunctionDef)):
+                        all_methods.add(f"{st.name}.{m.name}")
     return {
+        "all_methods": sorted(all_methods),
         "attrs": {k: sorted(map(list, v)) for k, v in sorted(attrs.items())},
         "methods": {f"{k[0]}.{k[1]}": v for k, v in sorted(c.methods.items())},
         "mod": {k: sorted(map(list, v)) for k, v in sorted(mod.items())},
     }, c
+
+
+def reference_methods():
+    """every `Class.method` of the reference tree (the tree the rules were written against), or None when there is no inventory"""
+    if not os.path.exists(ROLES):
+        return None
+    with open(ROLES) as fh:
+        return set(json.load(fh).get("all_methods", []))
 
 
 def _sim(a, b):
